@@ -98,6 +98,9 @@ impl Mesh1D<f64, f64> {
     /// Read data from a file (overwrites nodes with file nodes)
     #[inline]
     pub fn read(&mut self, filename: &str ) {
+        #[cfg(ohsl_verif)]
+        #[allow(unused_imports)]
+        use crate::verif_seam::{self as std, fs::{File, read_to_string}};
         let data = read_to_string( filename ).expect( "Unable to read file");
         let split = data.split_whitespace();
         let vec: Vec<&str> = split.collect();
@@ -148,6 +151,9 @@ impl<T: fmt::Display, X: fmt::Display> Mesh1D<T, X> {
     /// Print the mesh to a file
     #[inline]
     pub fn output(&self, filename: &str, precision: usize ) {
+        #[cfg(ohsl_verif)]
+        #[allow(unused_imports)]
+        use crate::verif_seam::{self as std, fs::{File, read_to_string}};
         let mut f = File::create(filename).expect("Unable to create file");
         for i in 0..self.nodes.size() {  
             write!( f, "{number:.prec$} ", prec = precision, number = self.nodes[ i ] ).unwrap();
